@@ -137,10 +137,11 @@ def validate(workdir, records, tmpw=(), invariants=("TraceInv",), properties=("T
 # S -> I: TLC simulation behaviours as turnstile plans
 
 
-def simulate_plans(workdir, dts_ranks, num=20, depth=400, seed=1):
-    """Random behaviours of S4Run for fixed ground truth; returns a list of plans [(thread, point)]."""
+def simulate_plans(workdir, dts_ranks, num=20, depth=400, seed=1, tmpw=(), sig=False, dropfirst=True):
+    """Random behaviours of S4Run for fixed ground truth; returns a list of plans [(thread, point)].
+    With sig=True each plan is (entries, sigint) where sigint = "thread:point:k" (raise at that passage) or None."""
     n = len(dts_ranks)
-    consts = s4run_constants(n, max([len(d) for d in dts_ranks] + [1]), {1}, shapes=("ok",))
+    consts = s4run_constants(n, max([len(d) for d in dts_ranks] + [1]), {1}, shapes=("ok",), tmpw=tmpw, sig=sig, dropfirst=dropfirst)
     os.makedirs(workdir, exist_ok=True)
     dfile = os.path.join(workdir, "dts-%d.json" % seed)
     with open(dfile, "w") as f:
@@ -151,13 +152,36 @@ def simulate_plans(workdir, dts_ranks, num=20, depth=400, seed=1):
     plans = []
     for m in re.finditer(r'"PLAN",\s*"([^"]*)"', r.output):
         plan = []
+        sigint = None
+        bad = False
         for tok in m.group(1).split():
             kind, w = tok[0], int(tok[1:])
             if kind == "S":
                 plan += [("w%d" % (w - 1), "SendStart"), ("w%d" % (w - 1), "SendDone")]
+            elif kind == "C":
+                plan += [("w%d" % (w - 1), "TempCreate")]
+            elif kind == "G":
+                plan += [("w%d" % (w - 1), "TempRegister")]
             elif kind == "R":
                 plan += [("main", "Recv"), ("main", "RecvDone")]
             elif kind == "P":
                 plan += [("main", "Print")]
-        plans.append(plan)
+            elif kind == "X":
+                if not plan:
+                    bad = True
+                    break
+                t_, p_ = plan[-1]
+                k_ = sum(1 for e in plan if e == (t_, p_)) - 1
+                sigint = "%s:%s:%d" % (t_, p_, k_)
+            elif kind == "K":
+                plan += [("sig", "HCleared")]
+            elif kind == "V":
+                plan += [("sig", "HRemoved")]
+            elif kind == "F":
+                plan += [("sig", "HFlag")]
+            elif kind == "E":
+                plan += [("main", "MainExit")]
+        if bad:
+            continue
+        plans.append((plan, sigint) if sig else plan)
     return plans, r
